@@ -789,6 +789,10 @@ def normalize_slice(idx, dim):
             if stop is not None and start is not None and stop < start:
                 stop = start
         elif step < 0:
+            if start < 0:
+                # The start lies before the first element: nothing is selected.
+                # Do not reinterpret ``start == -1`` as the last element
+                return slice(0, 0, step)
             if start >= dim - 1:
                 start = None
             if stop < 0:
